@@ -298,8 +298,10 @@ class Stream(APIRegisterMixin):
             self._inform_asynchronous(asynchronous)
         else:
             for upstream in self.upstreams:
-                if upstream and upstream.asynchronous:
-                    # also tells the other upstreams, which may not know yet
+                if upstream and upstream.asynchronous is not None:
+                    # also tells the other upstreams, which may not know yet;
+                    # a blocking pipeline (False) is inherited like an
+                    # asynchronous one
                     self._inform_asynchronous(upstream.asynchronous)
                     break
 
